@@ -870,7 +870,15 @@ class G:
                 r = rng.random()
                 n = rng.choice(names)
                 here = stack[-1]
-                if r < 0.25:
+                if r < 0.06:
+                    # block form 令： with mixed 设为 / 恒为 lines
+                    free = [m for m in names if m not in here]
+                    if len(free) >= 2:
+                        a, b = rng.sample(free, 2)
+                        ca, cb = rng.random() < 0.5, rng.random() < 0.5
+                        out.append(DeclBlock([([a], Num(str(self.fresh())), ca), ([b], Num(str(self.fresh())), cb)]))
+                        here[a], here[b] = ca, cb
+                elif r < 0.25:
                     if (n in here) == (rng.random() < bad):     # valid: not yet in this block
                         const = rng.random() < 0.3
                         out.append(Decl([n], Num(str(self.fresh())), const=const))
@@ -916,7 +924,30 @@ class G:
             fb.append(ExprS(Assign(Var('入'), Num('3'))))     # inputs are constants: 44
         fb.append(Ret(Var('甲')))
         body = [Func('域', ['入'], fb)]
+        # a method with inputs that leaves through 输出 from inside a loop (list or dictionary) or a branch:
+        # afterwards none of its declarations (inputs, loop variables, locals) may remain
+        coll = Dict([(Var('k1'), Num('1')), (Var('k2'), Num('2'))]) if rng.random() < 0.5 else Arr([Num('1'), Num('2'), Num('3')])
+        lvs = [['项'], ['键', '值'], []][rng.choice([0, 1, 1, 2])]
+        inner = [Decl(['内'], Num('5'))]
+        k = rng.random()
+        if k < 0.5:
+            inner.append(Ret(Var('目标')))
+        elif k < 0.75:
+            inner.append(If(Bin('xeq', Var('目标'), Num('2')), [Ret(Var('内'))]))
+        else:
+            inner.append(Break())
+        body.append(Func('查找', ['目标', '库'], [Iter(lvs, coll, inner), Ret(Num('-1'))]))
         main = block(3, [], rng.randint(4, 10))
+        if rng.random() < 0.6:
+            main.append(ExprS(Call('显示', [Call('查找', [Num(str(rng.randint(1, 3))), Num('0')])])))
+            probe = rng.random()
+            if probe < 0.4:
+                main.append(Decl(['目标'], Num('77')))          # the method's input is gone: a fresh declaration
+                main.append(ExprS(Call('显示', [Var('目标')])))
+            elif probe < 0.7:
+                main.append(Decl([rng.choice(['库', '内', '项', '键', '值'])], Num('78')))
+            else:
+                main.append(ExprS(Call('显示', [Var(rng.choice(['目标', '库', '内']))])))   # undefined: 42
         if rng.random() < 0.3:
             main.append(ExprS(Call('显示', [Var(rng.choice(names))])))
         return Program([], body + main), {}
